@@ -173,13 +173,19 @@ func (w *World) ruleListCount(r *Report, rule string) {
 		// header tag, then (type,) count
 		hdr := -1
 		var count *pxEvent
+		typeSlot := false // the typed header is followed by the type (a string or a back-reference int) before the count
 		for i := range p.Trace {
 			e := &p.Trace[i]
 			if e.Kind == "octets" && len(e.Args) > 0 && e.Args[0] != nil {
 				if s, _ := w.evalEv(e.Args[0], e.Env); s != nil && (s.Equal(single(0x58)) || s.Equal(single(0x56))) {
 					hdr = int(s.Min().Int64())
+					typeSlot = hdr == 0x56
 					continue
 				}
+			}
+			if hdr >= 0 && typeSlot && strings.HasPrefix(e.Kind, "scalar:") {
+				typeSlot = false
+				continue
 			}
 			if hdr >= 0 && e.Kind == "scalar:int" && count == nil {
 				count = e
